@@ -532,8 +532,10 @@ def setColl (sch : Schema) (del : ObjId → St → Res) (isRev : Bool) (o : ObjI
       else (reverseRemove d.rev toRemove o st).bind (reverseAdd d.rev toAdd o)
     r.bind fun st =>
       let r := st.store.row o
+      -- the cascade may have deleted items that were to stay in the collection: they are not put back
+      let kept := if rd.kind != .coll && d.cascade then items.filter (fun x => !(st.store.row x).status.isDel) else items
       let st := if isRev then st.log (.rewrite o c (r.items c) (r.added c) (r.removed c) (r.count c) (st.store.modColl c o)) else st
-      .ok (st.setStore (rewriteSet st.store o c (fun x => items.contains x) (fun x => toAdd.contains x) (fun x => toRemove.contains x)))
+      .ok (st.setStore (rewriteSet st.store o c (fun x => kept.contains x) (fun x => toAdd.contains x) (fun x => toRemove.contains x)))
   | _, _ => .err .noSuchAttr st
 
 /-! ## 9. Entity._delete_ -/
